@@ -1,6 +1,8 @@
 import S2T.Drv.Util
 import S2T.Model.Mail
+import S2T.Model.MailText
 import S2T.Gen.Router
+import S2T.Gen.Mail
 namespace S2T.Drv.C16
 open Lean S2T.Drv S2T.Mail
 open S2T.Router (Str)
@@ -86,7 +88,27 @@ def strsOf (j : Json) (k : String) : Except String (List Str) := do
 
 def jPairs (l : List (Str × Str)) : Json := Json.arr (l.map (fun (a, b) => Json.arr #[jText a, jText b])).toArray
 
-/-- op `c16.eml`: mailparser result ↦ what `_read_eml_format` builds -/
+/-- op `c16.text`: {"fn": "strip" | "unfold" | "subject", "s": text} ↦ {"out": code points} — `str.strip`,
+    header unfolding, and both (what becomes of a literal Subject value) -/
+def text (j : Json) : Except String Json := do
+  let fn ← getStr j "fn"
+  let s := chars (← getStr j "s")
+  let out ← match fn with
+    | "strip" => pure (S2T.MailText.pyStrip s)
+    | "unfold" => pure (S2T.MailText.unfold s)
+    | "subject" => pure (S2T.MailText.mboxSubject id s)
+    | _ => throw "unknown fn"
+  return Json.mkObj [("out", jText out)]
+
+/-- op `c16.decode`: {"codec": name, "bytes": [0..255]} ↦ {"out": code points} by the generated codec table -/
+def decode (j : Json) : Except String Json := do
+  let name ← getStr j "codec"
+  let bs ← natArr j "bytes"
+  match S2T.Gen.Mail.codecTables.lookup name with
+  | none => throw "no table for this codec"
+  | some t => return Json.mkObj [("out", jNats (S2T.MailText.decodeTable t bs))]
+
+/-- op `c16.eml`: mailparser result ↦ the `EmailContent` `_read_eml_format` returns (`__post_init__` included) -/
 def eml (j : Json) : Except String Json := do
   let atts ← (← getArr j "atts").toList.mapM (fun a => do
     return ({ filename := chars (← getStr a "fn"), ctype := chars (← getStr a "ct"), binary := (← getBool a "bin"),
@@ -95,7 +117,7 @@ def eml (j : Json) : Except String Json := do
                   bcc := (← tuplesOf j "bcc"), replyTo := (← tuplesOf j "reply_to"),
                   subject := chars (← getStr j "subject"), textPlain := (← strsOf j "text_plain"),
                   textHtml := (← strsOf j "text_html"), attachments := atts }
-  match readEml S2T.Gen.Router.tables m with
+  match S2T.MailText.emlContent S2T.Gen.Router.tables m with
   | .error .indexError => return Json.mkObj [("err", Json.str "IndexError")]
   | .ok r =>
     let ja := r.attachments.map (fun a =>
@@ -113,6 +135,8 @@ def handle (op : String) (j : Json) : Option (Except String Json) :=
   | "c16.addr" => some (addr j)
   | "c16.route" => some (route j)
   | "c16.eml" => some (eml j)
+  | "c16.text" => some (text j)
+  | "c16.decode" => some (decode j)
   | _ => none
 
 end S2T.Drv.C16
